@@ -22,7 +22,7 @@ CONF = {
                     "known finding: a bool left operand coerces the right one (true + 1); pinned by the repository's own test Test_Render_Bool_Concat"]},
  "C07": {"gen": ["Truthy", "Operators"], "streams": [("render-gen", "full"), ("render-struct", "full")], "assume": ["typed nil pointers are in the model (Val.ptr _ none, stream render-struct); other nil-able kinds (nil func, nil chan) are oracle only"]},
  "C08": {"gen": ["Iterators"], "streams": [("parse-tok", "full"), ("render-gen", "full")], "assume": ["Go map iteration order is the licensed variation; the correspondence stream iterates maps of one entry"]},
- "C09": {"gen": [], "streams": [("render-gen", "full")], "assume": []},
+ "C09": {"gen": ["EvalDispatch"], "streams": [("render-gen", "full")], "assume": []},
  "C10": {"gen": ["HelperKeys"], "streams": [("ctx-hist", "full")], "assume": []},
  "C11": {"gen": ["EvalDispatch"], "streams": [("parse-tok", "full"), ("render-struct", "full")],
          "assume": ["PARTIAL: struct fields and pointers are modelled (Val.struct / Val.ptr, stream render-struct); methods, embedded structs and the index-then-member rebinding are reflected Go behaviour outside the model: for them navigation is decided by the oracle (self-describing data)"]},
